@@ -482,4 +482,44 @@ def r15_6(ctx: Ctx) -> RuleResult:
     return r3_6(ctx, "R15.6", "jsonpath.patch.JSONPatch")
 
 
-RULES = [r15_1, r15_2, r15_3, r15_4, r15_5, r15_6]
+def r15_7(ctx: Ctx) -> RuleResult:
+    """A member of an operation object is required to be *present*, whatever its value: `{"op": "add", "path": "/a",
+    "value": null}` has a value.  The loader's member lookup is executed abstractly (rules/model.py) on an operation
+    whose member is null, false, 0 and "" - it must hand back that value - and on one without the member - it must
+    raise."""
+    from sa.peval import UNKNOWN
+
+    from .model import RAISES
+    from .model import MObj
+    from .model import Model
+
+    rr = RuleResult("R15.7", "a member of an operation is missing only when it is absent", floor=5)
+    fn = ctx.repo.require_func("JSONPatch._op_value")
+    params = [a.arg for a in fn.node.args.args]
+    if len(params) < 5:  # noqa: PLR2004
+        raise AnalysisError("R15.7: JSONPatch._op_value(self, operation, key, op, i) signature changed")
+    model = Model(ctx, "R15.7")
+    patch = MObj(model, "JSONPatch", {"unicode_escape": True, "uri_decode": False, "ops": UNKNOWN})
+    for label, value in (("null", None), ("false", False), ("0", 0), ('""', "")):
+        got = model.call(patch, "_op_value", [{"value": value, "op": "add", "path": "/a"}, "value", "add", 0])
+        if got is UNKNOWN:
+            raise AnalysisError(f"R15.7: the result of _op_value for a member that is {label} cannot be determined")
+        if got is not RAISES and got == value and type(got) is type(value):
+            rr.ok(fn.loc(), f"_op_value: a member that is {label} is read as {label}")
+        else:
+            rr.bad(fn, fn.node, f"an operation whose `value` member is {label} is "
+                   + ("refused as if the member were missing" if got is RAISES else f"read as {got!r}")
+                   + ": `{\"op\": \"add\", \"path\": \"/a\", \"value\": " + label + "}` is a valid operation, and the patch's own asdicts() "
+                   "output is then rejected by the loader", construct=f"_op_value: member {label} -> {'raise' if got is RAISES else repr(got)}")
+    got = model.call(patch, "_op_value", [{"op": "add", "path": "/a"}, "value", "add", 0])
+    if got is RAISES:
+        rr.ok(fn.loc(), "_op_value: an absent member is refused")
+    elif got is UNKNOWN:
+        raise AnalysisError("R15.7: the result of _op_value for an absent member cannot be determined")
+    else:
+        rr.bad(fn, fn.node, f"an operation without a `value` member is read as {got!r} instead of being refused",
+               construct=f"_op_value: absent member -> {got!r}")
+    return rr
+
+
+RULES = [r15_1, r15_2, r15_3, r15_4, r15_5, r15_6, r15_7]
